@@ -117,6 +117,7 @@ type Frame struct {
 	site    string
 	loops   *loopInfo
 	recovered bool
+	fnspecOuter bool
 }
 
 func (fx *FnExec) note(s string) { fx.notes[s] = true }
